@@ -5,6 +5,9 @@ import GqlProofs.Format.Description
 import GqlProofs.Format.BlockLex
 import GqlProofs.Format.FmtSchemaTokens
 import GqlProofs.Format.NormPreserveSchema
+import GqlProofs.Format.SchemaDocOf
+import GqlProofs.Format.ReloadExamples
+import GqlProofs.Format.LoadedPrintableDoc
 import GqlProofs.Props.C06
 /-
   Property C13 — format ∘ load round trip for schemas.
@@ -39,13 +42,36 @@ import GqlProofs.Props.C06
         d'.erasePos = (setBuiltIn b (normSchemaDoc cfg d)).erasePos`
     `C13_format_roundtrip_parsed`: the same for every document the parser returned.
 
+  LOADED SCHEMAS (`FormatSchema`, second half of the property):
+    `C13_schema_text_is_raw_document_text : fmtSchema cfg s = fmtSchemaDoc cfg (docOfSchemaRaw s)` — `FormatSchema`
+      prints a DOCUMENT (schema definition / `extend schema` as the formatter decides, directive and type
+      definitions sorted by name), byte for byte, every configuration, every schema;
+    `C13_schema_text_is_document_text` — the same for `docOfSchema cfg s` (hidden `__schema`/`__type` fields
+      dropped), when no printed definition has ONLY hidden fields (`NoAllHidden`);
+    `C13_schema_format_tokens`, `C13_schema_format_parses` — the text lexes to the unparser's tokens and parses back
+      to `docOfSchema cfg s` (normalised) up to positions;
+    `C13_schema_reload` / `C13_schema_reload_of_sources` / `C13_schema_reload_document` — loading `prelude ⊕` the
+      parsed text succeeds and gives a schema `ReloadEquiv` to `s` (same roots; name by name the same types, fields,
+      arguments, defaults, directives, descriptions up to positions and string-kind normalisation; same directive
+      definitions, schema directives, possible types and implementers up to order), for every configuration
+      without `WithBuiltin` (also `WithoutDescription`: then `normDef cfg` drops the descriptions);
+    the loader reads SKELETONS only (GqlProofs/Format/LoadSkeleton.lean): `validate…_sk`.
+    Exceptions, each a kernel-checked theorem: `C13_schema_description_not_printed` / `…_counterexample` (R13e),
+      `C13_builtin_output_not_reloadable`, `C13_schema_not_a_fixpoint_counterexample`,
+      `C13_schema_linebreak_indent_counterexample`; NEW FINDINGS `C13_schema_hidden_fields_counterexample`
+      (`scalar Query` prints `scalar Query {⏎}`), `C13_schema_reload_needs_no_builtin_extension`
+      (`extend type __Type { … }` is lost).
+
   NOT proved (kept so that nothing is weakened silently):
     theorem C13_doc_fixpoint … : fmtSchemaDoc cfg d' = fmtSchemaDoc cfg d
       — false as stated: with `WithoutDescription` the comma after an argument that has a description
-        is skipped (KNOWN FINDING sd:not-a-fixpoint); moreover the formatter looks at positions
-        (`fieldSuppressed`: line 0; built-in source 0), so it is not invariant under `erasePos`.
-    theorem C13_schema_roundtrip … : load (fmtSchema cfg s) = ok s' ∧ s' ≃ s   (loaded schemas:
-      `FormatSchema`; needs the loader model; R13e: `Schema.Description` is never printed)
+        is skipped (KNOWN FINDING sd:not-a-fixpoint, `C13_schema_not_a_fixpoint_counterexample`); moreover the
+        formatter looks at positions (`fieldSuppressed`: line 0; built-in source 0), so it is not invariant
+        under `erasePos`.  The fixpoint for loaded schemas WITHOUT `WithoutDescription`
+          theorem C13_schema_fixpoint … : fmtSchema cfg s' = fmtSchema cfg s   (s' the reloaded schema)
+        is not proved either: it needs `fmtSchemaDoc` invariant under `erasePos`/`normDef` for documents whose
+        fields all have positions, and `sortedByKey` of the reloaded maps (same keys) — lemmas
+        `fmtSchemaDoc_erasePos`, `fmtSchemaDoc_norm`, `sortedByKey_congr_keys` are missing.
 -/
 open Gql Gql.Lexer Gql.Format Gql.Grammar Gql.Print Gql.Parser
 
@@ -297,3 +323,341 @@ example : FormattableSchema C13_sampleDoc := by decide
 theorem C13_description_newline_indent_counterexample :
     blockStringValue (descBody [10] [97, 10, 98]) = [97, 10, 10, 98] ∧
     blockStringValue (descBody [44] [101]) = [44, 101, 10, 44] := by decide
+
+/-! ### loaded schemas: `FormatSchema` prints a document -/
+
+/-- (1, raw) The text `FormatSchema` writes for a schema is, byte for byte, the text
+    `FormatSchemaDocument` writes for the document `docOfSchemaRaw s`: the schema definition when the
+    formatter decides to write one (the roots that are set, the schema directives), else one
+    `extend schema @…` when there are schema directives, the directive definitions and the type
+    definitions sorted by name.  Every configuration, every schema, no hypothesis. -/
+theorem C13_schema_text_is_raw_document_text (cfg : Cfg) (s : Schema) :
+    fmtSchema cfg s = fmtSchemaDoc cfg (docOfSchemaRaw s) := by
+  unfold fmtSchema fmtSchemaDoc
+  rw [formatSchema_eq_raw]
+
+/-- (1) … and the text of `docOfSchema cfg s`, the same document without the fields the formatter
+    hides (`__schema`, `__type`), provided no printed definition has ONLY hidden fields. -/
+theorem C13_schema_text_is_document_text (cfg : Cfg) (s : Schema) (h : NoAllHidden cfg s) :
+    fmtSchema cfg s = fmtSchemaDoc cfg (docOfSchema cfg s) := by
+  unfold fmtSchema fmtSchemaDoc
+  rw [formatSchema_eq_doc cfg s h]
+
+/-- the text of a loaded schema lexes to the unparser's tokens of the (normalised) document -/
+theorem C13_schema_format_tokens {cfg : Cfg} (hind : AllBlank cfg.indent) (s : Schema) (h : NoAllHidden cfg s)
+    (hd : FormattableSchema (docOfSchema cfg s)) :
+    tokensOf (fmtSchema cfg s) = some (printSchemaLongD descTok (normSchemaDoc cfg (docOfSchema cfg s))) := by
+  rw [C13_schema_text_is_document_text cfg s h]
+  exact C13_format_tokens hind _ hd
+
+/-- (2) The text `FormatSchema` writes parses (as any source `src` with any `BuiltIn` flag `b`), and the
+    parsed document is `docOfSchema cfg s`, normalised, up to positions. -/
+theorem C13_schema_format_parses {cfg : Cfg} (hind : AllBlank cfg.indent) (s : Schema) (h : NoAllHidden cfg s)
+    (hd : FormattableSchema (docOfSchema cfg s)) (hok : DocAll ItemOK (docOfSchema cfg s)) (src : Nat) (b : Bool) :
+    ∃ d', parseSchemaSrc 0 src b (fmtSchema cfg s) = .ok d' ∧
+      d'.erasePos = (setBuiltIn b (normSchemaDoc cfg (docOfSchema cfg s))).erasePos := by
+  rw [C13_schema_text_is_document_text cfg s h]
+  exact C13_format_roundtrip hind _ hd hok src b
+
+/-! ### loaded schemas: format, load again -/
+
+open Gql.Load in
+/-- (3) **FORMAT ∘ LOAD ROUND TRIP FOR LOADED SCHEMAS.**  Let `s` be the schema the loader returns for
+    `prelude ⊕ u` (`PreludeShape`, `UserShape`: what `ParseSchemas` gives for the built-in source and for
+    user sources that do not extend a prelude type).  For every configuration without `WithBuiltin` whose
+    indentation consists of spaces and tabs: the text `FormatSchema` writes parses (as a user source `src`),
+    the loader accepts `prelude ⊕` the parsed document, and the schema it returns is `ReloadEquiv` to `s`:
+    the same root operation types, name by name the same types, fields, arguments, default values,
+    directives and descriptions (up to positions; a block-string VALUE comes back as a string value; with
+    `WithoutDescription` the descriptions are dropped — `normDef cfg`), the same directive definitions, the
+    same schema directives, the same possible types and implementers up to order.
+    `Schema.Description` is not kept (`ReloadEquiv.description`, recorded finding).
+    Hypotheses on `s` (each decidable, each shown necessary below or guaranteed for parsed sources):
+    `NoAllHidden` — no printed definition has only hidden fields (fails exactly for a scalar / enum / union
+    query root: FINDING, `C13_schema_hidden_fields_counterexample`); `FormattableSchema`, `ItemOK` of the
+    printed document — names are names, … (what the lexer and parser guarantee); `RootsPrintable` — when no
+    schema definition is printed the roots are the default-named types (always true when the schema
+    definitions of the sources list an operation type, as the parser requires). -/
+theorem C13_schema_reload {cfg : Cfg} (hind : AllBlank cfg.indent) (hb : cfg.emitBuiltin = false)
+    (pre u : SchemaDoc) (s : Schema) (hpre : PreludeShape pre) (hu : UserShape pre u)
+    (hload : load (pre.merge u) = .ok s) (hh : NoAllHidden cfg s) (hd : FormattableSchema (docOfSchema cfg s))
+    (hok : DocAll ItemOK (docOfSchema cfg s)) (hrp : RootsPrintable s) (src : Nat) :
+    ∃ P s', parseSchemaSrc 0 src false (fmtSchema cfg s) = .ok P ∧ load (pre.merge P) = .ok s' ∧ ReloadEquiv cfg s s' := by
+  obtain ⟨P, hP1, hP2⟩ := C13_schema_format_parses hind s hh hd hok src false
+  obtain ⟨s', h1, h2⟩ := reload_main hb hpre hu hload (P := P) hP2 hrp
+  exact ⟨P, s', hP1, h1, h2⟩
+
+open Gql.Load in
+/-- the model-level core of (3), without the parser: any document that is, up to positions, the printed
+    one is accepted on top of the prelude and gives an equivalent schema -/
+theorem C13_schema_reload_document {cfg : Cfg} (hb : cfg.emitBuiltin = false) (pre u P : SchemaDoc) (s : Schema)
+    (hpre : PreludeShape pre) (hu : UserShape pre u) (hload : load (pre.merge u) = .ok s)
+    (hP : P.erasePos = (setBuiltIn false (normSchemaDoc cfg (docOfSchema cfg s))).erasePos) (hrp : RootsPrintable s) :
+    ∃ s', load (pre.merge P) = .ok s' ∧ ReloadEquiv cfg s s' :=
+  reload_main hb hpre hu hload hP hrp
+
+open Gql.Load in
+/-- (3′) **the same with hypotheses about the SOURCES only.**  `s` is loaded from `prelude ⊕ u`; the merged
+    source document is formattable and satisfies the side conditions of the grammar (`FormattableSchema`,
+    `DocAll ItemOK`: both are what the lexer and the parser guarantee, cf. `C06_parse_printable`); the
+    query root is an object, interface or input object type (`QueryRootHasFields`; it cannot be dropped:
+    `C13_schema_hidden_fields_counterexample`).  Then the formatted text of `s` parses, loads on top of the
+    prelude, and the result is `ReloadEquiv` to `s`.  The hypotheses about `s` of `C13_schema_reload` are
+    derived: `noAllHidden_of_loaded`, `docOfSchema_printable`, `rootsPrintable_of_loaded`. -/
+theorem C13_schema_reload_of_sources {cfg : Cfg} (hind : AllBlank cfg.indent) (hb : cfg.emitBuiltin = false)
+    (pre u : SchemaDoc) (s : Schema) (hpre : PreludeShape pre) (hu : UserShape pre u)
+    (hload : load (pre.merge u) = .ok s) (hF : FormattableSchema (pre.merge u)) (hI : DocAll ItemOK (pre.merge u))
+    (hq : QueryRootHasFields s) (src : Nat) :
+    ∃ P s', parseSchemaSrc 0 src false (fmtSchema cfg s) = .ok P ∧ load (pre.merge P) = .ok s' ∧ ReloadEquiv cfg s s' := by
+  obtain ⟨hd, hok⟩ := docOfSchema_printable (cfg := cfg) hb hload hF hI
+  have hs : SchemaDefsHaveRoots (pre.merge u) := by
+    intro x hx
+    obtain ⟨_, hne, hops⟩ := hI.1 x hx
+    cases hl : x.opTypes with
+    | nil => exact absurd hl hne
+    | cons o rest =>
+      refine ⟨o, by simp, ?_⟩
+      have := hops o (by rw [hl]; simp)
+      rcases this with h | h | h <;> rw [h] <;> decide
+  exact C13_schema_reload hind hb pre u s hpre hu hload (noAllHidden_of_loaded cfg hload hq) hd hok
+    (rootsPrintable_of_loaded hload hs) src
+
+open Gql.Load Gql.Format.Examples in
+/-- non-vacuity of the reload theorem: `"d" schema { query: Q } type Q { f: Q }` (custom root name) satisfies the
+    hypotheses of `C13_schema_reload_document` for the printed document itself -/
+example : ∃ s', load (SchemaDoc.empty.merge (printed {} (loadD (SchemaDoc.empty.merge describedSchemaDoc)))) = .ok s' ∧
+    ReloadEquiv {} (loadD (SchemaDoc.empty.merge describedSchemaDoc)) s' :=
+  C13_schema_reload_document rfl SchemaDoc.empty describedSchemaDoc _ _ (by decide) (by decide)
+    (loadD_ok (by decide)) rfl (by decide)
+
+open Gql.Load Gql.Format.Examples in
+/-- non-vacuity of (3′): `type Query { f: Query }` on the empty prelude satisfies every hypothesis -/
+example : ∃ P s', parseSchemaSrc 0 1 false (fmtSchema {} (loadD (SchemaDoc.empty.merge plainQueryDoc))) = .ok P ∧
+    load (SchemaDoc.empty.merge P) = .ok s' ∧ ReloadEquiv {} (loadD (SchemaDoc.empty.merge plainQueryDoc)) s' := by
+  have hI : DocAll ItemOK (SchemaDoc.empty.merge plainQueryDoc) := by
+    unfold DocAll
+    refine ⟨?_, ?_, ?_, ?_, ?_⟩
+    · intro x hx; cases hx
+    · intro x hx; cases hx
+    · intro x hx; cases hx
+    · intro x hx
+      simp only [SchemaDoc.merge, SchemaDoc.empty, plainQueryDoc, docOf, List.nil_append, List.mem_singleton] at hx
+      subst hx
+      refine ⟨cdirs_nil, rfl, rfl, ?_⟩
+      intro f hf
+      simp only [mkDef, List.mem_singleton] at hf
+      subst hf
+      refine ⟨?_, rfl, cdirs_nil⟩
+      intro a ha
+      simp [field] at ha
+    · intro x hx; cases hx
+  exact C13_schema_reload_of_sources (by intro b hb; simp at hb; subst hb; decide) rfl SchemaDoc.empty plainQueryDoc _
+    (by decide) (by decide) (loadD_ok (by decide)) (by decide) hI (by decide) 1
+
+/-! ### the recorded exceptions, kernel-checked -/
+
+/-- R13e (KNOWN FINDING `s:roundtrip-tree-differs/SCHEMA.description`): `FormatSchema` does not look at
+    `Schema.Description` at all … -/
+theorem C13_schema_description_not_printed (cfg : Cfg) (s : Schema) (d : Bytes) :
+    fmtSchema cfg { s with description := d } = fmtSchema cfg s := rfl
+
+open Gql.Load Gql.Format.Examples in
+/-- … so `"d" schema { query: Q } type Q { f: Q }` loads with the description `d` and no schema loaded
+    from its formatted text has it: `ReloadEquiv.description` cannot be `s'.description = s.description` -/
+theorem C13_schema_description_counterexample :
+    ∃ s, load (SchemaDoc.empty.merge describedSchemaDoc) = .ok s ∧ s.description = str "d" ∧
+      ∀ cfg s', ReloadEquiv cfg s s' → s'.description ≠ s.description := by
+  refine ⟨_, loadD_ok (by decide), by decide, ?_⟩
+  intro cfg s' h
+  rw [h.description]
+  decide
+
+open Gql.Load in
+/-- a user definition (not flagged built in) whose name starts with `__` is never accepted -/
+theorem load_rejects_user_dunder {sd : SchemaDoc} {d : Definition} (hd : d ∈ sd.definitions)
+    (hbi : d.builtIn = false) (hname : hasDunder d.name = true) : ∀ s, load sd ≠ .ok s := by
+  intro s h
+  obtain ⟨st, r1, d1, F⟩ := loaded_facts h
+  have hn := buildState_defs_nodup F.built
+  have hfind := find?_key_of_mem Definition.name hn hd
+  have hl := state_lookup F.built d.name
+  rw [hfind] at hl
+  simp only [mergedFrom] at hl
+  have hD := F.defOK _ (mem_of_lookup hl)
+  have hb2 : (List.foldl (fun d e => applyExt e d) d
+      (List.filter (fun x => x.name == d.name) sd.extensions)).builtIn = false := by
+    rw [foldl_applyExt_builtIn]; exact hbi
+  have hk := F.typesInv.2 _ (mem_of_lookup hl)
+  simp only at hk
+  have := hD.defName hb2
+  rw [hk, hname] at this
+  cases this
+
+open Gql.Load in
+/-- KNOWN FINDING `s:builtin-output-not-reloadable/Name`: with `WithBuiltin` the printed document contains
+    the types whose names start with `__` (every schema loaded with the real prelude has `__Schema`, …);
+    read as a user source — alone or merged after any other document — it is rejected.  So the
+    hypothesis `cfg.emitBuiltin = false` of `C13_schema_reload` cannot be dropped. -/
+theorem C13_builtin_output_not_reloadable {cfg : Cfg} (hb : cfg.emitBuiltin = true) (s : Schema)
+    (hs : ∃ p ∈ s.types, hasDunder p.2.name = true) (P : SchemaDoc)
+    (hP : P.erasePos = (setBuiltIn false (normSchemaDoc cfg (docOfSchema cfg s))).erasePos) (other : SchemaDoc) :
+    ∀ s', load (other.merge P) ≠ .ok s' := by
+  obtain ⟨p, hp, hdun⟩ := hs
+  have hmem : dropHidden cfg p.2 ∈ (sortedByKey s.types).map (dropHidden cfg) :=
+    List.mem_map.mpr ⟨p.2, (mem_sortedByKey _ _).mpr ⟨p, hp, rfl⟩, rfl⟩
+  have hdefs := congrArg SchemaDoc.definitions hP
+  simp only [SchemaDoc.erasePos, setBuiltIn, normSchemaDoc, docOfSchema, List.map_map] at hdefs
+  have hkeep : ((sortedByKey s.types).map (dropHidden cfg)).filter (keepDef cfg) = (sortedByKey s.types).map (dropHidden cfg) := by
+    rw [List.filter_eq_self]; intro d _; simp [keepDef, hb]
+  rw [hkeep] at hdefs
+  obtain ⟨d', hd', e⟩ := exists_of_map_eq_right hdefs hmem
+  have hn : d'.name = p.2.name := by
+    have := congrArg Definition.name e
+    simpa [Definition.erasePos, normDef, dropHidden] using this
+  have hbi : d'.builtIn = false := by
+    have := congrArg Definition.builtIn e
+    simpa [Definition.erasePos, normDef, dropHidden] using this
+  exact load_rejects_user_dunder (d := d') (by simp [SchemaDoc.merge, hd']) hbi (by rw [hn]; exact hdun)
+
+/-! ### hypotheses of `C13_schema_reload` that cannot be dropped: kernel-checked witnesses -/
+
+section Witnesses
+open Gql.Load Gql.Format.Examples
+
+/-- `scalar Query`, loaded (the loader makes it the query root and appends `__schema`, `__type`) -/
+def C13_scalarQuerySchema : Schema := loadD (SchemaDoc.empty.merge scalarQueryDoc)
+
+theorem C13_scalarQuerySchema_raw :
+    docOfSchemaRaw C13_scalarQuerySchema = docOf [addIntrospection (mkDef .scalar "Query" [])] := by
+  have ht : C13_scalarQuerySchema.types = [(str "Query", addIntrospection (mkDef .scalar "Query" []))] := rfl
+  have hd : C13_scalarQuerySchema.directives = [] := rfl
+  have h1 : needSchema C13_scalarQuerySchema = false := by decide
+  have h2 : C13_scalarQuerySchema.schemaDirectives = [] := rfl
+  unfold docOfSchemaRaw
+  rw [ht, hd, sortedByKey_single, h1, h2]
+  simp [sortedByKey, docOf]
+
+/-- FINDING (new, consequence of the recorded C07 finding `non-object-root-type`): `scalar Query` loads; the
+    loader appends the introspection fields to the scalar; `FormatSchema` hides them but still writes the
+    braces of the field list: the text is `scalar Query {⏎}⏎`, which is not a type-system document (Go:
+    `rts` answers `reparse-fails:Unexpected {`; the same for `enum Query { A }` and `union Query = A`).
+    Here: `NoAllHidden` fails, and without it the text is NOT the text of `docOfSchema` (`scalar Query⏎`). -/
+theorem C13_schema_hidden_fields_counterexample :
+    load (SchemaDoc.empty.merge scalarQueryDoc) = .ok C13_scalarQuerySchema ∧
+    ¬ NoAllHidden {} C13_scalarQuerySchema ∧
+    fmtSchema {} C13_scalarQuerySchema = str "scalar Query {\n}\n" ∧
+    fmtSchemaDoc {} (docOfSchema {} C13_scalarQuerySchema) = str "scalar Query\n" := by
+  refine ⟨loadD_ok (by decide), by decide, ?_, ?_⟩
+  · rw [C13_schema_text_is_raw_document_text, C13_scalarQuerySchema_raw]
+    decide
+  · have ht : C13_scalarQuerySchema.types = [(str "Query", addIntrospection (mkDef .scalar "Query" []))] := rfl
+    have : docOfSchema {} C13_scalarQuerySchema = docOf [mkDef .scalar "Query" []] := by
+      unfold docOfSchema
+      rw [C13_scalarQuerySchema_raw, ht, sortedByKey_single]
+      rfl
+    rw [this]
+    decide
+
+/-- prelude `type __T { a: __T }`, user source `extend type __T { b: __T }`, loaded -/
+def C13_extendedBuiltinSchema : Schema := loadD (tinyPrelude.merge extendBuiltinDoc)
+
+/-- FINDING (new): an extension of a BUILT-IN type is lost.  `FormatSchema` skips built-in types, so the
+    fields (or directives) a user source adds to one are not printed, and the reloaded schema has the
+    prelude's definition (Go: `type Query { a: Int } extend type __Type { extra: Int }` — `rts` answers
+    `tree-differs:SCHEMA-DF`; likewise `extend scalar String @x`).  `UserShape.extNotBuiltin` excludes it. -/
+theorem C13_schema_reload_needs_no_builtin_extension :
+    PreludeShape tinyPrelude ∧ ¬ UserShape tinyPrelude extendBuiltinDoc ∧
+    load (tinyPrelude.merge extendBuiltinDoc) = .ok C13_extendedBuiltinSchema ∧
+    (C13_extendedBuiltinSchema.types.lookup (str "__T")).map (fun d => d.fields.map (·.name)) = some [str "a", str "b"] ∧
+    ∃ s', load (tinyPrelude.merge (printed {} C13_extendedBuiltinSchema)) = .ok s' ∧
+      (s'.types.lookup (str "__T")).map (fun d => d.fields.map (·.name)) = some [str "a"] := by
+  have hp : printed {} C13_extendedBuiltinSchema = docOf [] := by
+    have ht : C13_extendedBuiltinSchema.types =
+        [(str "__T", mkDef .object "__T" [field "a" "__T", field "b" "__T"] true)] := rfl
+    have hd : C13_extendedBuiltinSchema.directives = [] := rfl
+    have h1 : needSchema C13_extendedBuiltinSchema = false := by decide
+    have h2 : C13_extendedBuiltinSchema.schemaDirectives = [] := rfl
+    unfold printed docOfSchema docOfSchemaRaw
+    rw [ht, hd, sortedByKey_single, h1, h2]
+    simp [sortedByKey, docOf, normSchemaDoc, setBuiltIn, mergeSchemaDefs, keepDef, dropHidden, mkDef]
+  refine ⟨by decide, by decide, loadD_ok (by decide), by decide, ?_⟩
+  rw [hp]
+  exact ⟨_, loadD_ok (by decide), by decide⟩
+
+/-- the configuration of the next witness: `WithoutDescription` -/
+def C13_noDescCfg : Cfg := { omitDescription := true }
+
+def C13_describedArgSchema : Schema := loadD (SchemaDoc.empty.merge describedArgDoc)
+def C13_describedArgReloaded : Schema := loadD (SchemaDoc.empty.merge describedArgDocPrinted)
+
+/-- KNOWN FINDING `s:not-a-fixpoint`: with `WithoutDescription` the comma after an argument that HAS a
+    description is skipped although the description is not written.  `input In { x: In }
+    directive @d("x" a: In  b: In) on FIELD` loads; its text is `directive @d(a: In b: In) on FIELD …`; the
+    printed document loads (in accordance with `C13_schema_reload_document`) and the text of THAT schema is
+    `directive @d(a: In, b: In) on FIELD …`: formatting the result again does not reproduce the text. -/
+theorem C13_schema_not_a_fixpoint_counterexample :
+    load (SchemaDoc.empty.merge describedArgDoc) = .ok C13_describedArgSchema ∧
+    printed C13_noDescCfg C13_describedArgSchema = describedArgDocPrinted ∧
+    load (SchemaDoc.empty.merge (printed C13_noDescCfg C13_describedArgSchema)) = .ok C13_describedArgReloaded ∧
+    fmtSchema C13_noDescCfg C13_describedArgSchema = str "directive @d(a: In b: In) on FIELD\ninput In {\n\tx: In\n}\n" ∧
+    fmtSchema C13_noDescCfg C13_describedArgReloaded = str "directive @d(a: In, b: In) on FIELD\ninput In {\n\tx: In\n}\n" := by
+  have raw : ∀ (s : Schema) (dIn : Definition) (dd : DirectiveDef), s.types = [(str "In", dIn)] →
+      s.directives = [(str "d", dd)] → needSchema s = false → s.schemaDirectives = [] →
+      docOfSchemaRaw s = { docOf [dIn] with directives := [dd] } := by
+    intro s dIn dd ht hd h1 h2
+    unfold docOfSchemaRaw
+    rw [ht, hd, sortedByKey_single, sortedByKey_single, h1, h2]
+    simp [docOf]
+  have r1 := raw C13_describedArgSchema _ _ rfl rfl (by decide) rfl
+  have r2 := raw C13_describedArgReloaded _ _ rfl rfl (by decide) rfl
+  have hp : printed C13_noDescCfg C13_describedArgSchema = describedArgDocPrinted := by
+    have ht : C13_describedArgSchema.types = [(str "In", mkDef .inputObject "In" [field "x" "In"])] := rfl
+    unfold printed docOfSchema
+    rw [r1, ht, sortedByKey_single]
+    rfl
+  refine ⟨loadD_ok (by decide), hp, ?_, ?_, ?_⟩
+  · rw [hp]; exact loadD_ok (by decide)
+  · rw [C13_schema_text_is_raw_document_text, r1]; decide
+  · rw [C13_schema_text_is_raw_document_text, r2]; decide
+
+/-- `type Query { """a⏎b""" f: Query }`, loaded -/
+def C13_describedFieldSchema : Schema := loadD (SchemaDoc.empty.merge describedFieldDoc)
+
+/-- KNOWN FINDING (line-break indents): the hypothesis `AllBlank cfg.indent` cannot be widened to all white
+    space.  With `WithIndent("\n")` the description `a⏎b` of a field is written with an empty line between
+    its lines; the block string read back has the value `a⏎⏎b`. -/
+theorem C13_schema_linebreak_indent_counterexample :
+    load (SchemaDoc.empty.merge describedFieldDoc) = .ok C13_describedFieldSchema ∧
+    fmtSchema { indent := [10] } C13_describedFieldSchema
+      = str "type Query {\n\n\"\"\"\n\na\n\nb\n\n\"\"\"\n\nf: Query\n}\n" ∧
+    blockStringValue (str "\n\na\n\nb\n\n") = [97, 10, 10, 98] := by
+  refine ⟨loadD_ok (by decide), ?_, by decide⟩
+  have ht : C13_describedFieldSchema.types =
+      [(str "Query", addIntrospection (mkDef .object "Query" [field "f" "Query" [97, 10, 98]]))] := rfl
+  have hd : C13_describedFieldSchema.directives = [] := rfl
+  have h1 : needSchema C13_describedFieldSchema = false := by decide
+  have h2 : C13_describedFieldSchema.schemaDirectives = [] := rfl
+  have raw : docOfSchemaRaw C13_describedFieldSchema =
+      docOf [addIntrospection (mkDef .object "Query" [field "f" "Query" [97, 10, 98]])] := by
+    unfold docOfSchemaRaw
+    rw [ht, hd, sortedByKey_single, h1, h2]
+    simp [sortedByKey, docOf]
+  rw [C13_schema_text_is_raw_document_text, raw]
+  decide
+
+end Witnesses
+
+#print axioms C13_schema_text_is_raw_document_text
+#print axioms C13_schema_text_is_document_text
+#print axioms C13_schema_format_tokens
+#print axioms C13_schema_format_parses
+#print axioms C13_schema_reload
+#print axioms C13_schema_reload_document
+#print axioms C13_schema_reload_of_sources
+#print axioms C13_schema_description_not_printed
+#print axioms C13_schema_description_counterexample
+#print axioms C13_builtin_output_not_reloadable
+#print axioms C13_schema_hidden_fields_counterexample
+#print axioms C13_schema_reload_needs_no_builtin_extension
+#print axioms C13_schema_not_a_fixpoint_counterexample
+#print axioms C13_schema_linebreak_indent_counterexample
